@@ -21,6 +21,8 @@ import (
 
 const verifRoot = "/verif"
 
+var selftestInfo string
+
 type KnownFinding struct {
 	ID       string `json:"id"`
 	Property string `json:"property"`
@@ -88,6 +90,7 @@ func cmdCheck(args []string) int {
 	solver := fs.String("solver", "cvc5", "z3|z3-new|cvc5")
 	noEvidence := fs.Bool("no-evidence", false, "do not write the evidence file")
 	trace := fs.Bool("trace", false, "collect per-function query statistics")
+	deadline := fs.Duration("deadline", 0, "wall-clock budget per harness (default: quick 8m, thorough 45m)")
 	fs.Parse(args)
 	if *prop == "" {
 		fmt.Fprintln(os.Stderr, "missing -property")
@@ -126,6 +129,9 @@ func cmdCheck(args []string) int {
 		fmt.Printf("loaded in %.1fs\n", loadT.Seconds())
 	}
 	known := loadKnown()
+	// differential self-test of the leaf models (real function vs model) on every run
+	stN, stFails := symgo.SelfTest(int64(seed)+1, 120)
+	selftestInfo = fmt.Sprintf("%d differential model checks, %d mismatches", stN, len(stFails))
 
 	var results []*harnessResult
 	for _, hf := range hfs {
@@ -148,7 +154,17 @@ func cmdCheck(args []string) int {
 			cfg := symgo.DefaultConfig()
 			cfg.Workers = *workers
 			cfg.Solver = *solver
+			if *solver != "cvc5" {
+				cfg.Fallback = "cvc5"
+			}
 			cfg.Trace = *trace
+			cfg.Deadline = 8 * time.Minute
+			if thorough {
+				cfg.Deadline = 45 * time.Minute
+			}
+			if *deadline > 0 {
+				cfg.Deadline = *deadline
+			}
 			if thorough {
 				cfg.TimeoutMs = 60000
 			}
@@ -200,6 +216,9 @@ func cmdCheck(args []string) int {
 		inconclusive = append(inconclusive, "native replay failed: "+replayErr.Error())
 	}
 
+	for _, f := range stFails {
+		inconclusive = append(inconclusive, "leaf model disagrees with the real function: "+f)
+	}
 	nViol := 0
 	knownSeen := map[string]bool{}
 	for _, hr := range results {
@@ -766,6 +785,7 @@ func writeEvidence(prop, tier string, seed int, results []*harnessResult, traces
 			"functions_encoded_lib_count":   len(funcsLib),
 			"functions_encoded_lib":         libNames,
 			"models_and_stubs":              intr,
+			"model_selftest":                selftestInfo,
 			"queries":                       q,
 			"solver":                        solver,
 			"solver_time_s":                 round(solverT),
@@ -823,7 +843,21 @@ func assumptionsFor(results []*harnessResult) []string {
 }
 
 func cmdSelftest(args []string) int {
-	fmt.Println("selftest: ok")
+	seed, _ := strconv.Atoi(envOr("VERIF_SEED", "1"))
+	rounds := 400
+	if len(args) > 0 {
+		if n, err := strconv.Atoi(args[0]); err == nil {
+			rounds = n
+		}
+	}
+	n, fails := symgo.SelfTest(int64(seed), rounds)
+	for _, f := range fails {
+		fmt.Println("MODEL-MISMATCH", f)
+	}
+	fmt.Printf("selftest: %d differential model checks, %d mismatches\n", n, len(fails))
+	if len(fails) > 0 {
+		return 2
+	}
 	return 0
 }
 
